@@ -83,7 +83,7 @@ CHECKS["C18"] = dict(
         ob("VH_C18_dedupe", dict(K=3, N=4), T, covers=["dot", "nodot"], bounds="3 paths of 1..4 bytes"),
         ob("VH_C18_resolve", dict(NREQ=1), covers=["needs", "root-reached", "hop-limit", "lexical-dotdot"], bounds="model-FS tree {d/, d/x, d/y, d/s/, d/f, f, S->d/s, L, L2, d/M?} with every assignment of 12 candidate targets (relative, absolute, '..' beyond the root, chains, loops, dangling, links in intermediate components) to L, L2, d/M; one request out of 11"),
         ob("VH_C18_wildcard", dict(N=45), covers=["done"], bounds="one wildcard request matching 45 two-step symlink chains (more links followed in total than the 40-hop bound of one resolution), optionally one dangling match", max_steps=30000000),
-        ob("VH_C18_transfer", dict(NREQ=1), covers=["resolvable", "unresolvable", "wildcard", "lexical-dotdot", "done"], bounds="consequence clause: model-FS tree {srv1/{conf,other}, srv2/{conf}, f, z, L -> one of 5 targets, optional directory symlink srv3}; one follow-path out of 9 (literal, wildcard in the last / a middle / both components), with or without a literal user include; the filtered walk must contain what every requested path resolves through"),
+        ob("VH_C18_transfer", dict(NREQ=1), covers=["resolvable", "unresolvable", "wildcard", "lexical-dotdot", "done"], bounds="consequence clause: model-FS tree {srv1/{conf,other,lnk->../z}, srv2/{conf,lnk->../f}, f, z, L -> one of 5 targets, optional directory symlink srv3}; one follow-path out of 16 (literal, wildcard in the last / a middle / both components), with or without a literal user include; the filtered walk must contain what every requested path resolves through"),
         ob("VH_C18_transfer", dict(NREQ=2), covers=["resolvable", "unresolvable", "wildcard", "done"], bounds="the same with every ordered pair of follow-paths"),
         ob("VH_C18_resolve", dict(NREQ=2), T, covers=["needs", "root-reached", "hop-limit", "lexical-dotdot"], bounds="as quick with every ordered pair of requests", max_paths=900000),
     ],
@@ -184,7 +184,7 @@ CHECKS["C07"] = dict(
         ob("VH_C07_receiver", dict(SHAPE=0, MAXB=0, LN=1), covers=["requested", "not-requested", "done"], bounds="plain transfer whose source may hold a root-level regular file named .fsutil-metadata"),
         ob("VH_C07_receiver", dict(SHAPE=1, MAXB=1, LAT=1), covers=["requested", "not-requested", "done"], bounds="source {d, d/f}; second deterministic schedule: the receiver's SendMsg returns after the peer reacted (DATA can overtake the return of the REQ call)"),
         ob("VH_C07_receiver", dict(SHAPE=1, MAXB=1, MT=1), covers=["requested", "not-requested", "done"], bounds="source {d, d/f} with mtimes from {1.25 s before the epoch, the last nanosecond of a second}"),
-        ob("VH_C07_many", dict(N=320), covers=["done"], bounds="a concrete listing of 320 one-byte files announced completely before any content is delivered (more entries than the receiver's internal queues hold)", max_steps=60000000),
+        ob("VH_C07_many", dict(N=400), covers=["done"], bounds="a concrete listing of 400 one-byte files announced completely before any content is delivered (more entries than the receiver's internal queues hold)", max_steps=60000000),
         ob("VH_C07_receiver", dict(SHAPE=2, MAXB=2), T, covers=["requested", "not-requested", "done"], bounds="source {d, d/f, e} incl. hard link, files <=2 bytes", max_paths=2000000),
         ob("VH_C07_receiver", dict(SHAPE=2, MAXB=1, LAT=1), T, covers=["requested", "not-requested", "done"], bounds="source {d, d/f, e} incl. hard link under the latency schedule", max_paths=2000000),
         ob("VH_C07_receiver", dict(SHAPE=1, MAXB=3), T, covers=["requested", "not-requested", "done"], bounds="source {d, d/f}, files <=3 bytes, every chunking"),
